@@ -30,7 +30,7 @@ LEVEL = {
          "features {}, {std}, {arbitrary-precision}.",
          "The checked model's panic sites were transcribed by reading the Rust source; on a tree where the property holds no panic occurs at the public API, so their *placement* is validated separately: "
          "an advisory stage of this check calls the crate-internal functions through the cfg(decstr_verif) hook module on in- and out-of-contract arguments in both profiles and compares value|panic with the "
-         "checked model (evidence: site_validation; 62 of 129 sites reached, Rust and model panic on the same requests except where the model over-approximates; DESIGN §10.7). It never changes the verdict. "
+         "checked model (evidence: site_validation; 62 of 129 sites reached, on every one of them Rust and the model panic on exactly the same requests in the same profile; DESIGN §10.7). It never changes the verdict. "
          "Not modelled: usize +/* of length-bounded quantities, `as` casts, num-bigint/itoa/ryu internals, from_utf8 of ASCII literals, allocation failure, stack exhaustion. toText requires a decimal below ~950 MB. "
          "from_f32/f64 relative to the formatter contract (C12)."),
  "C06": ("Theorems: the model's DecimalParser (state machine over flags/cursor with the str buffer's ranges) accepts exactly the language of Spec.parse and assigns every byte to the field "
